@@ -9,7 +9,7 @@ CONSTANTS
   MaxSteps = 60
   PeerAddrs = {2, 3}
   Gens = {0, 1}
-  Pols = {"none", "next", "same", "losing"}
+  Pols = {"none", "next", "same", "losing", "cycle"}
   MonSetDefault = {"C07", "C08", "C09", "C10", "C11", "C12", "C13", "C19"}
   Scope = "full"
 INVARIANTS MonitorsQuiet RejectedLeavesNoTrace NoPanic
